@@ -263,7 +263,7 @@ func genEvent(r *vh.Rng, st int, started bool, storedID string, payCounter *int,
 		e.kind, e.coqEv, e.slow = "deferred", "EDeferred", true
 		*slowLeft--
 	default:
-		return recv(closeMsg(vh.Pick(r, []string{"announce", "confirm", "confirm", "foo"})))
+		return recv(closeMsg(r, vh.Pick(r, []string{"announce", "confirm", "confirm", "foo"})))
 	}
 	return []*event{e}
 }
@@ -403,9 +403,9 @@ func scriptEvent(r *vh.Rng, step string, st int, storedID string, pay *int) []*e
 		*pay++
 		return recv(dataMsg(*pay))
 	case step == "announce":
-		return recv(closeMsg("announce"))
+		return recv(closeMsg(r, "announce"))
 	case step == "confirm":
-		return recv(closeMsg("confirm"))
+		return recv(closeMsg(r, "confirm"))
 	case step == "timeout":
 		e.kind, e.coqEv = "timeout", "ETimeout"
 	case step == "connerr":
